@@ -6,9 +6,11 @@ ASSUMPTIONS = [
     "objects of capacity <= NARY digits are whole `struct bint`s with sentinel-filled slack: a store beyond placea is detected through the sentinel (for every sentinel value), a LOAD beyond placea but inside the struct is not detected as a memory error (it would make the value postcondition fail if the value matters)",
     "TimesStep/TimesDouble identities are stated in 64-bit unsigned arithmetic; that (2^32-1)^2 + 2(2^32-1) = 2^64-1 does not wrap is a pencil-and-paper fact, not a solver result",
     "right shifts and bit tests are specified on the magnitude (sign-magnitude, quotient by 2^n truncated toward zero), as the property's rule for quotients; bintBit on a negative number tests |b| (the code's own '!! This should handle negative numbers' is not resolved by the property text)",
-    "bintPlus/bintMinus: real bodies inlined, one job per operand shape x sign case, re-entries bounded by --unwindset with recursion unwinding assertions (so the bound is proved, not assumed); quick tier runs stored x stored for three sign cases and immediate x immediate non-negative, the thorough tier all 16 cases per function",
+    "bintPlus/bintMinus: real bodies inlined, one job per operand shape x sign case (16 per function), re-entries bounded by --unwindset with recursion unwinding assertions (so the bound is proved, not assumed); these jobs are in the THOROUGH tier only (170-350 s each); the quick tier has the digit-level iintPlus/iintMinus",
     "class B jobs: every operand has at most 3 digits (96 bits), all digit values, signs, lengths and capacities symbolic; nothing is claimed beyond that size",
     "UNDECIDED, not claimed: the arithmetic identities of iintTimes, iintTimesS, iintTimesPlusS, iintDivide, iintDivideS, bintTimes (general path), bintDivide (a = q*b + r, truncation, sign of remainder), bintMod/bintModi, xxTimesDouble/xxDivideDouble/xxModDouble, fiBIntGcd, fiBIntSIPower/BIPower/PowerMod, bintToString/bintIntoString, bintFrString/bintScanFrString/bintRadixScanFrString: 64-bit multiplier/divider equivalences are beyond the SAT back end (probed: 2x2-digit product, DivideDouble re-multiplied, 120-900 s without result)",
+    "OBSERVED, NOT DECIDED as a memory-safety question: iintShift evaluates bp[-1] == Placev(b)[-1] (bigint.c:2269, `x0 |= h ? bp[i] >> h : 0` with i == -1) on a left shift of a one-digit operand - an out-of-bounds read of the digit array, undefined behaviour in ISO C; on LE LP64 it loads the zero upper half of placec, so the VALUE is exact: jobs *.left_shift_of_one_digit.platform_layout prove exactness under that layout assumption, *.except_left_shift_of_one_digit prove everything else without it",
+    "FAILING OBLIGATIONS KEPT (genuine, natively reproduced, see replays): bintShiftRem is wrong or unsafe for n == 0, n >= 31 on immediates, n a multiple of 32 or beyond the bit length on stored numbers (jobs bint.bintShiftRem.*)",
     "signed overflow is not checked (framework default): xintStoreI/xintCopyInI/intLength/intBit negate LONG_MIN, which wraps to itself under CBMC and gcc and gives the exact result, but is undefined behaviour in ISO C",
 ]
 
@@ -17,8 +19,8 @@ STD = ["--no-standard-checks", "--no-malloc-may-fail", "--bounds-check", "--poin
 # "any length" harnesses allocate fullsizeof(struct bint, placea, digit) bytes exactly; for placea < NARY that is
 # less than sizeof(struct bint) and --pointer-check reports a FALSE "outside object bounds in b->placev" (it
 # checks the whole declared member) while --bounds-check is EXACT ("dynamic object upper bound" compares the
-# byte offset with the malloc'ed size).  Also used where a contract takes __CPROVER_old(a->isNeg) of a
-# possibly immediate (integer-valued) operand.
+# byte offset with the malloc'ed size).  Also used for the immediate-operand shapes (nothing to point to; the
+# tagged integer-valued pointers only make --pointer-check generate hundreds of vacuous properties).
 NOPTR = ["--no-standard-checks", "--no-malloc-may-fail", "--bounds-check", "--div-by-zero-check"]
 SRC = "bigint_h.c"
 B3 = "operands <= 3 digits (96 bits), capacities <= 4 digits"
@@ -110,7 +112,7 @@ def jobs(tier):
     IINT = (("iintAbs", st("a") + st("r0"), ("r", "ra")), ("iintNegate", st("a") + st("r0"), ("r", "ra")),
             ("iintPlus", st("a") + st("b") + st("r0"), ("r", "ra", "rb")),
             ("iintMinus", st("a") + st("b") + st("r0"), ("r", "ra", "rb")),
-            ("iintShift", st("b") + st("r0") + ["n"], ("r", "ra")))
+            ("iintShift", st("b") + st("r0") + ["n"], ()))
     ALIAS = {"r": "result_distinct", "ra": "result_aliases_first_operand", "rb": "result_aliases_second_operand"}
     for f, ins, modes in IINT:
         for m in modes:
@@ -120,7 +122,12 @@ def jobs(tier):
     for m in ("r", "ra"):
         J("iint.iintShift.%s.except_left_shift_of_one_digit" % ALIAS[m], "h_iintShift_%s_excl" % m, ["iintShift"],
           st("b") + st("r0") + ["n"], cls="B", bound=B3 + "; excludes n > 0 with a one-digit operand (reads Placev(b)[-1])",
-          enforce=E("iintShift"), unwind=UB, timeout=240)
+          enforce=E("iintShift"), unwind=UB, timeout=400)
+        # the excluded class, operand laid out in a word buffer so that Placev(b)[-1] is the platform's actual word
+        J("iint.iintShift.%s.left_shift_of_one_digit.platform_layout" % ALIAS[m], "h_iintShift_%s_1d" % m, ["iintShift"],
+          ["b_neg", "b_pa", "b_d0"] + st("r0") + ["n"], cls="B",
+          bound="one-digit operand, n > 0, result <= 4 digits; ASSUMES the LE LP64 layout of struct bint for the out-of-array read Placev(b)[-1]",
+          unwind=UB, timeout=400, checks=NOPTR)
 
     # comparison, bit length, bit test: immediate operands = class P, a stored operand = class B
     KK = (("ii", "imm_imm"), ("is", "imm_stored"), ("si", "stored_imm"), ("ss", "stored_stored"))
@@ -168,11 +175,11 @@ def jobs(tier):
                 J("bint.%s.%s.%s" % (f, kn, SGN[sg]), "h_%s_%s_sg%d" % (f, k, sg), [f, other] + INL,
                   bk("a")[:-1] + bk("b0")[:-1] + ["same"], cls="P" if k == "ii" else "B", bound=None if k == "ii" else B3,
                   unwind=["--slice-formula"] + UW(6, "uintLength.0:66", "%s:%d" % (me, re_me), "%s:0" % other),
-                  timeout=600 if tier != "thorough" else 1800, mem_gb=14)
+                  timeout=600 if tier != "thorough" else 1800, mem_gb=10)
         if tier == "thorough":
           J("canary.bint." + f, "h_%s_ss_sg1" % f, [f], bk("a")[:-1] + bk("b0")[:-1] + ["same"], cls="B", bound=B3,
           unwind=["--slice-formula"] + UW(6, "uintLength.0:66", "%s:0" % me, "%s:0" % other),
-            timeout=1800, mem_gb=14, defs=["-DCANARY_" + f], kind="canary")
+            timeout=1800, mem_gb=10, defs=["-DCANARY_" + f], kind="canary")
 
     # products that have a cheap exact formulation
     if tier == "thorough":
@@ -191,16 +198,20 @@ def jobs(tier):
     # shifts (bintShift: 300 s on a loaded machine, thorough tier; the digit-level iintShift jobs are in the quick tier)
     if tier == "thorough":
         for k, kn in K1:
+            # immediate operand: xintStore gives a one-digit number, whose left shift reads Placev(b)[-1] (see iintShift);
+            # allocated objects are word buffers there (-DC11_RAW_ALLOC) so that the read is the platform's actual word
             J("bint.bintShift." + kn, "h_bintShift_" + k, ["bintShift", "iintShift", "bintLength", "xintStore", "bintAlloc", "xintImmedIfCan"],
-              bk("b")[:-1] + ["n"], cls="B", bound=B3 + ", result < 2^127", unwind=UB, timeout=1500, mem_gb=14)
+              bk("b")[:-1] + ["n"], cls="B", unwind=UB, timeout=1500, mem_gb=10,
+              bound=B3 + ", result < 2^127" + ("; ASSUMES the LE LP64 layout of struct bint for the out-of-array read Placev(b)[-1]" if k == "i" else ""),
+              defs=["-DC11_RAW_ALLOC"] if k == "i" else [], checks=NOPTR if k == "i" else STD)
         J("canary.bint.bintShift", "h_bintShift_s", ["bintShift"], bk("b")[:-1] + ["n"], cls="B", bound=B3, unwind=UB,
           defs=["-DCANARY_bintShift"], kind="canary", timeout=1500)
         # product / quotient: memory safety and result form only (identities undecided)
         J("iint.iintTimes.memory_safety_and_result_form", "h_iintTimes_wf", ["iintTimes"], st("a") + st("b") + st("r"), cls="B",
-          bound="operands <= 2 digits; the identity r == a*b is NOT decided", unwind=UB, timeout=1500, mem_gb=14)
+          bound="operands <= 2 digits; the identity r == a*b is NOT decided", unwind=UB, timeout=1500, mem_gb=10)
         J("iint.iintDivide.memory_safety_and_result_form", "h_iintDivide_wf", ["iintDivide", "iintDivideS", "iintTimesS", "bintLT"],
           st("u") + st("v") + st("q") + st("r"), cls="B",
-          bound="dividend <= 3 digits, divisor <= 2 digits; the identity a == q*b + r is NOT decided", unwind=UB, timeout=1500, mem_gb=14)
+          bound="dividend <= 3 digits, divisor <= 2 digits; the identity a == q*b + r is NOT decided", unwind=UB, timeout=1500, mem_gb=10)
     # bintShiftRem (fiBIntShiftRem passes the user's count): int-typed shifts by n, hence --undefined-shift-check
     SHC = STD + ["--undefined-shift-check"]
     for k, kn in K1:
